@@ -20,6 +20,8 @@
 #include <ctime>
 #include <climits>
 #include <cstdarg>
+#include <unistd.h>
+#include <sys/wait.h>
 #include <rtosc/rtosc.h>
 #include <rtosc/ports.h>
 #include <rtosc/port-sugar.h>
@@ -223,23 +225,93 @@ static std::string step(const std::string &line)
     return out.empty() ? "-" : out;
 }
 
-int main(int argc, char **argv)
+// Runs the op lines in a forked worker; when the worker dies on a line (sanitizer abort,
+// signal) that line's output is `crash:<how>` and a new worker continues with the next
+// line, so a defect that crashes on most histories still yields one output line per op.
+// After 20 crashed lines the harness re-executes itself with sanitizer symbolization
+// switched off (every report otherwise spawns a symbolizer; a defect that crashes on
+// thousands of histories would take a quarter of an hour).
+static int run_forked(const char *file, size_t start0)
 {
-    // self-test of the clock interposition: two events for one address 1000 s apart must not merge
-    {
-        rtosc::UndoHistory h;
-        h.setCallback([](const char *) {});
-        bytes a = {'/', 'x'};
-        g_clock = 5;
-        record(h, a, 'i', 0, 1);
-        g_clock = 1005;
-        record(h, a, 'i', 1, 2);
-        size_t far = h.size();
-        record(h, a, 'i', 2, 3);
-        if (far != 2 || h.size() != 2) {
-            fprintf(stderr, "undo harness: time() interposition is not effective (sizes %zu %zu)\n", far, h.size());
-            return 3;
+    std::ifstream in(file);
+    std::vector<std::string> lines;
+    std::string line;
+    while (std::getline(in, line))
+        if (!line.empty() && line[0] != '#') lines.push_back(line);
+    size_t start = start0;
+    int crashes = 0;
+    while (start < lines.size()) {
+        if (crashes >= 20 && !getenv("VH_QUIET")) {
+            std::string a = std::string(getenv("ASAN_OPTIONS") ? getenv("ASAN_OPTIONS") : "") + ":symbolize=0";
+            std::string u = std::string(getenv("UBSAN_OPTIONS") ? getenv("UBSAN_OPTIONS") : "") +
+                            ":symbolize=0:print_stacktrace=0";
+            setenv("ASAN_OPTIONS", a.c_str(), 1);
+            setenv("UBSAN_OPTIONS", u.c_str(), 1);
+            setenv("VH_QUIET", "1", 1);
+            std::string st = std::to_string(start);
+            fflush(stdout);
+            execl("/proc/self/exe", "undo-harness", file, st.c_str(), (char *)NULL);
+            return 4;
         }
+        int fd[2];
+        if (pipe(fd)) return 4;
+        fflush(stdout);
+        pid_t pid = fork();
+        if (pid < 0) return 4;
+        if (pid == 0) {
+            close(fd[0]);
+            FILE *o = fdopen(fd[1], "w");
+            for (size_t i = start; i < lines.size(); ++i) {
+                std::string out = step(lines[i]);
+                fputs(out.c_str(), o);
+                fputc('\n', o);
+                fflush(o);
+            }
+            fclose(o);
+            _exit(0);
+        }
+        close(fd[1]);
+        FILE *r = fdopen(fd[0], "r");
+        size_t got = 0;
+        std::string cur;
+        int c;
+        while ((c = fgetc(r)) != EOF) {
+            if (c == '\n') {
+                fputs(cur.c_str(), stdout);
+                fputc('\n', stdout);
+                cur.clear();
+                ++got;
+            } else
+                cur.push_back((char)c);
+        }
+        fclose(r);
+        int st = 0;
+        waitpid(pid, &st, 0);
+        fflush(stdout);
+        if (got >= lines.size() - start) break;
+        char how[64];
+        if (WIFSIGNALED(st)) snprintf(how, sizeof how, "crash:signal:%d", WTERMSIG(st));
+        else snprintf(how, sizeof how, "crash:exit:%d", WIFEXITED(st) ? WEXITSTATUS(st) : -1);
+        puts(how);
+        fflush(stdout);
+        start += got + 1;
+        ++crashes;
     }
-    return run_lines(argc, argv, step);
+    return 0;
+}
+
+int main(int argc, char **argv)
+
+{
+    // The definition of time() above is part of this executable, so the static linker binds
+    // undo-history.o's reference to it (an executable's own definition precedes libc and the
+    // sanitizer runtime).  Check that the symbol really is ours.
+    time_t (*volatile fp)(time_t *) = &time;
+    g_clock = 12345;
+    if (fp(NULL) != 12345) {
+        fprintf(stderr, "undo harness: time() interposition is not effective\n");
+        return 3;
+    }
+    if (argc < 2) { fprintf(stderr, "usage: %s <ops-file>\n", argv[0]); return 2; }
+    return run_forked(argv[1], argc > 2 ? (size_t)atoll(argv[2]) : 0);
 }
